@@ -62,6 +62,9 @@ pub struct Gen<'a> {
     /// budget of "expensive" operators (mul/div/mod) so circuits stay small
     heavy: i32,
     used_helpers: Vec<bool>,
+    /// > 0 while generating an `if` condition / `match` scrutinee: Garble (like Rust) does not
+    /// accept struct literals anywhere inside those, not even nested in a block
+    in_cond: u32,
 }
 
 const STRUCT_NAMES: &[&str] = &["Point", "Rec", "Acc", "Pair", "Item", "Node"];
@@ -99,6 +102,7 @@ impl<'a> Gen<'a> {
             next_var: 0,
             heavy: 6,
             used_helpers: vec![],
+            in_cond: 0,
         }
     }
 
@@ -336,6 +340,11 @@ impl<'a> Gen<'a> {
                 }
             }
             5 => return self.share_reuse(t, d),
+            6 if !self.structs.is_empty() && self.in_cond == 0 => {
+                if let Some(e) = self.struct_match_expr(t, d) {
+                    return e;
+                }
+            }
             _ => {}
         }
         match t {
@@ -427,7 +436,9 @@ impl<'a> Gen<'a> {
     /// A Boolean expression usable as an `if` condition / `match` scrutinee (Garble, like Rust,
     /// does not accept a bare block or struct literal there).
     fn cond(&mut self, t: &Ty, d: u32) -> String {
+        self.in_cond += 1;
         let e = self.expr(t, d);
+        self.in_cond -= 1;
         if e.starts_with('{') || e.starts_with("if ") || e.starts_with("match ") || e.contains(" { ") {
             format!("({e})")
         } else {
@@ -492,6 +503,82 @@ impl<'a> Gen<'a> {
             }
         }
         format!("match {s} {{ {} }}", arms.join(", "))
+    }
+
+    fn scalar_pattern(&mut self, t: &Ty) -> Option<String> {
+        Some(match t {
+            Ty::Bool => if self.p.chance(1, 2) { "true" } else { "false" }.to_string(),
+            Ty::U8 | Ty::U16 => {
+                if self.p.chance(1, 2) {
+                    format!("{}", self.p.below(4))
+                } else {
+                    let lo = self.p.below(100);
+                    format!("{}..{}", lo, lo + self.p.range(1, 100))
+                }
+            }
+            Ty::I8 => format!("{}", self.p.below(5)),
+            _ => return None,
+        })
+    }
+
+    /// `match` over a struct value with several refutable field patterns per arm, the fields
+    /// written in a different order in every arm.
+    fn struct_match_expr(&mut self, t: &Ty, d: u32) -> Option<String> {
+        let cands: Vec<usize> = (0..self.structs.len())
+            .filter(|&i| self.structs[i].fields.iter().filter(|(_, ft)| matches!(ft, Ty::Bool | Ty::U8 | Ty::U16 | Ty::I8)).count() >= 1)
+            .collect();
+        if cands.is_empty() {
+            return None;
+        }
+        let si = *self.p.pick(&cands);
+        let sd = self.structs[si].clone();
+        let scrut_paths = self.paths_of(&Ty::Struct(si));
+        let sv = self.fresh("sv");
+        let scrut = if !scrut_paths.is_empty() && self.p.chance(2, 3) { self.p.pick(&scrut_paths).clone() } else { self.expr(&Ty::Struct(si), d.min(1)) };
+        let narms = self.p.range(1, 3);
+        let mut arms = vec![];
+        for _ in 0..narms {
+            let mut fields = sd.fields.clone();
+            self.p.shuffle(&mut fields);
+            let mut pats = vec![];
+            let mut bound = 0;
+            let mut rest = false;
+            for (fname, fty) in &fields {
+                let refutable = self.p.chance(2, 3);
+                match self.scalar_pattern(fty) {
+                    Some(pat) if refutable => pats.push(format!("{fname}: {pat}")),
+                    _ => {
+                        if self.p.chance(1, 3) {
+                            rest = true;
+                        } else {
+                            let v = self.fresh("f");
+                            pats.push(format!("{fname}: {v}"));
+                            self.vars.push((v, fty.clone(), false));
+                            bound += 1;
+                        }
+                    }
+                }
+            }
+            if rest && !pats.is_empty() {
+                pats.push("..".into());
+            } else if pats.is_empty() {
+                let (fname, fty) = fields[0].clone();
+                let v = self.fresh("f");
+                pats.push(format!("{fname}: {v}"));
+                self.vars.push((v, fty, false));
+                bound += 1;
+                if fields.len() > 1 {
+                    pats.push("..".into());
+                }
+            }
+            let body = self.expr_top(t, d);
+            for _ in 0..bound {
+                self.vars.pop();
+            }
+            arms.push(format!("{} {{ {} }} => {}", sd.name, pats.join(", "), body));
+        }
+        arms.push(format!("_ => {}", self.expr_top(t, d)));
+        Some(format!("{{ let {sv} = {scrut}; match {sv} {{ {} }} }}", arms.join(", ")))
     }
 
     /// SHARE(k)+REUSE: the shape that makes `mux_panic`'s key order observable.
@@ -580,6 +667,28 @@ impl<'a> Gen<'a> {
                     let muts: Vec<(String, Ty)> =
                         self.vars.iter().filter(|(_, _, m)| *m).map(|(n, t, _)| (n.clone(), t.clone())).collect();
                     if muts.is_empty() {
+                        continue;
+                    }
+                    if muts.len() >= 2 && self.p.chance(1, 2) {
+                        // several variables assigned in both branches, in different orders:
+                        // exercises the order in which merged environments are walked
+                        let mut chosen = muts.clone();
+                        self.p.shuffle(&mut chosen);
+                        chosen.truncate(self.p.range(2, 3) as usize);
+                        let mut assigns = |g: &mut Gen, order: &[(String, Ty)]| -> String {
+                            order.iter().map(|(v, t)| format!("{v} = {};", g.expr(t, depth.min(1)))).collect::<Vec<_>>().join(" ")
+                        };
+                        let a = assigns(self, &chosen);
+                        chosen.reverse();
+                        let b = assigns(self, &chosen);
+                        if self.p.chance(2, 3) {
+                            let c = self.cond(&Ty::Bool, 1);
+                            out.push(format!("{indent}if {c} {{ {a} }} else {{ {b} }}"));
+                        } else {
+                            let sc = self.cond(&Ty::U8, 1);
+                            let c3 = assigns(self, &chosen);
+                            out.push(format!("{indent}match {sc} {{ 0 => {{ {a} }}, 1..9 => {{ {b} }}, _ => {{ {c3} }} }}"));
+                        }
                         continue;
                     }
                     let (v, t) = self.p.pick(&muts).clone();
@@ -777,6 +886,15 @@ impl<'a> Gen<'a> {
             self.vars.push((pn, t.clone(), m));
         }
         let mut body = vec![];
+        if nstmts > 0 && self.p.chance(1, 2) {
+            for _ in 0..self.p.range(2, 3) {
+                let t = self.scalar_ty();
+                let v = self.fresh("m");
+                let e = self.expr(&t, 1);
+                body.push(format!("    let mut {v} = {e};"));
+                self.vars.push((v, t, true));
+            }
+        }
         self.stmts(nstmts, depth, &mut body, "    ");
         let r = self.expr_top(&ret, depth);
         body.push(format!("    {r}"));
